@@ -1,4 +1,5 @@
 PROP = dict(
+    cover_pkgs=["pdu"],
     gen=["layouts"],
     proof_files=["Properties/C03.v", "Proofs/PduStreamProofs.v"],
     model_files=["Model/Pdu.v", "Model/PduRun.v"],
